@@ -6,6 +6,9 @@
 //	             answers in the scheduled order, late, twice, with unknown ids, never, or closes.
 //	-mode storm  concurrent clients on shared downstream connections with randomised upstream delays,
 //	             short timeouts with late replies, duplicate replies and upstream closes.
+//	-mode h1     pooled ping-pong upstream connections (HTTP/1.1): sequential clients, some requests time out in the
+//	             proxy while their upstream exchange is still pending; the abandoned connection must never serve
+//	             another request.
 //	-mode table  replays TLC-enumerated operation histories of spec/stream/XStreamConn.tla into the real
 //	             client stream connection (stream.NewStreamClient) of bolt, boltv2, dubbo and tars.
 //
@@ -41,8 +44,8 @@ type hcase struct {
 }
 
 const (
-	longMs  = 30000 // timeout of requests that are meant to be answered: load alone never expires it
-	shortMs = 120   // timeout of requests the upstream never answers in time
+	longMs  = 30000           // timeout of requests that are meant to be answered: load alone never expires it
+	shortMs = 120             // timeout of requests the upstream never answers in time
 	evWait  = 5 * time.Second // event waits; a run in which one wait failed goes on with short waits
 	maxLost = 24              // after this many failed waits the driver stops taking new cases (reported)
 )
@@ -368,7 +371,7 @@ func startMosn(tmp string, up *xc02.Up) string {
 }
 
 func main() {
-	mode := flag.String("mode", "hop", "hop|storm|table")
+	mode := flag.String("mode", "hop", "hop|storm|h1|table")
 	cases := flag.String("cases", "", "cases file")
 	out := flag.String("trace", "", "trace output")
 	res := flag.String("results", "", "per-run result lines")
@@ -389,6 +392,10 @@ func main() {
 	}
 	tmp, _ := os.MkdirTemp("", "c02-")
 	defer os.RemoveAll(tmp)
+	if *mode == "h1" {
+		mainH1(tr, rs, tmp, *shard, *rounds)
+		return
+	}
 	emit := func(ev map[string]interface{}) { tr.Emit(vh.Ev(ev)) }
 	up := xc02.NewUp(emit)
 	defer up.Stop()
